@@ -259,6 +259,7 @@ def run(chk):
     chk.use_engine(e)
     chk.section("trace_call", lambda: trace_call_obligations(chk))
     chk.section("return-shapes", lambda: return_shapes(chk))
+    chk.section("value-semantics", lambda: value_semantics(chk))
 
 
 REPLAY_STRUCT_METHOD = r'''
@@ -772,3 +773,63 @@ def return_shapes(chk):
                                func="guppylang_internals.tracing.function:trace_function")
         if res.get("violates"):
             o.replay.update({"script": REPLAY_RETURN, "input": {"shape": shape}})
+
+
+REPLAY_VALUES = r'''
+import guppy_plainbool
+import tempfile, importlib.util, os, sys, shutil
+BODIES = {
+    "alias-in-one-list": "    xs = {L}x, x{R}\n    setfirst(xs)\n    return xs[0] * 1000 + xs[1]\n",
+    "read-before-the-call": "    xs = {L}x, x + 1{R}\n    old = xs[0]\n    bump(xs)\n    return old * 1000 + xs[0]\n",
+    "copy-before-the-call": "    xs = {L}x, x + 1{R}\n    ys = xs.copy()\n    bump(ys)\n    return xs[0] * 1000 + ys[0]\n",
+    "two-calls": "    xs = {L}x, x + 1{R}\n    bump(xs)\n    a = xs[0]\n    bump(xs)\n    return a * 1000 + xs[0]\n",
+    "nested-rows": "    m = {L}{L}x, x{R}, {L}x, x + 1{R}{R}\n    bump(m[1])\n    return m[0][0] * 1000 + m[1][0]\n",
+}
+I = INPUT
+body = BODIES[I["case"]]
+src = """from guppylang import guppy
+from guppylang.std.builtins import array, result
+@guppy
+def setfirst(xs: array[int, 2]) -> None:
+    xs[0] = 100
+@guppy
+def bump(xs: array[int, 2]) -> None:
+    xs[0] += 100
+@guppy.comptime
+def c(x: int) -> int:
+""" + body.format(L="[", R="]") + """@guppy
+def r(x: int) -> int:
+""" + body.format(L="array(", R=")") + """@guppy
+def main() -> None:
+    result("comptime", c(7)); result("regular", r(7))
+"""
+d = tempfile.mkdtemp(dir=os.environ.get("TMPDIR", "/var/tmp")); fn = os.path.join(d, "replay_c21v.py"); open(fn, "w").write(src)
+spec = importlib.util.spec_from_file_location("replay_c21v", fn); m = importlib.util.module_from_spec(spec); sys.modules["replay_c21v"] = m
+spec.loader.exec_module(m)
+try:
+    ent = {t: int(v) for t, v in list(m.main.emulator(n_qubits=1).run().results)[0].entries}
+    out = {"violates": ent.get("comptime") != ent.get("regular"), "evaluations": 1, "observed": ent}
+except Exception as ex:
+    out = {"violates": True, "evaluations": 1, "observed": type(ex).__name__ + ": " + str(ex)[:160]}
+shutil.rmtree(d, ignore_errors=True)
+out["detail"] = f"{I['case']}: {out['observed']}"
+print(json.dumps(out))
+'''
+
+
+def value_semantics(chk):
+    """BOUNDED: integers in comptime lists are VALUES, as they are in arrays of a regular function (and in Python):
+    an alias in the same list, a variable read before a borrowing call, and a copy() taken before it keep their value
+    when the callee updates the lent array."""
+    import json
+    from pyvc.report import run_replay
+    for case in ("alias-in-one-list", "read-before-the-call", "copy-before-the-call", "two-calls", "nested-rows"):
+        res = run_replay(REPLAY_VALUES, {"case": case}, chk.repo, timeout=900)
+        if "evaluations" not in res:
+            chk.undecided(f"bounded:comptime-values[{case}]", "oracle run failed: " + json.dumps(res)[:600])
+            continue
+        o = chk.bounded_result(f"bounded:comptime-values[{case}]:comptime-and-regular-function-with-the-same-body-report-the-same-value", not res.get("violates"), 1,
+                               detail=res.get("detail"), witness={"case": case, "observed": res.get("observed")} if res.get("violates") else None,
+                               func="guppylang_internals.tracing.unpacking:update_packed_value")
+        if res.get("violates"):
+            o.replay.update({"script": REPLAY_VALUES, "input": {"case": case}})
